@@ -1119,6 +1119,248 @@ theorem nextN_iterate (hd : p.decl = []) : ∀ (rest : List Step) (s : St) (c : 
 
 end PipeSession
 
+/-! ### HTTP: a producer session iterated to its end is `Engine.Http.iterate` -/
+section HttpSession
+open HttpM Engine.Aux
+variable (c : Cfg) (p : Prog)
+
+/-- the first `pull` of a `next`, then up to `n` further `next`s -/
+def pullThen (f n : Nat) (s : St) (items : List Item) : List Ev :=
+  match pull c p f s items with
+  | (s', evs, true) => evs ++ (nextN c p n s').2
+  | (_, evs, false) => evs
+
+theorem pull_logs (f : Nat) (s : St) (cl : List Log) (xs : List Item) :
+    pull c p f s (logItems cl ++ xs) =
+      ((pull c p f s xs).1, Sem.lg cl ++ (pull c p f s xs).2.1, (pull c p f s xs).2.2) := by
+  induction cl with
+  | nil => simp [logItems, Sem.lg]
+  | cons l r ih =>
+    simp only [logItems, List.map_cons, List.cons_append, Sem.lg] at ih ⊢
+    rw [pull.eq_2, ih]
+
+theorem pullThen_logs (f n : Nat) (s : St) (cl : List Log) (xs : List Item) :
+    pullThen c p f n s (logItems cl ++ xs) = Sem.lg cl ++ pullThen c p f n s xs := by
+  unfold pullThen
+  rw [pull_logs]
+  cases h : pull c p f s xs with
+  | mk s' r =>
+    cases r with
+    | mk evs y => cases y <;> simp
+
+theorem nextN_reader (n : Nat) (s : St) (items : List Item) (hg : s.gen = .reader items) :
+    (nextN c p (n + 1) s).2 = pullThen c p (fuel p) n s items := by
+  simp only [nextN, next, hg, pullThen]
+  split <;> simp_all
+
+
+theorem serve_producer (hp : p.isProducer = true) (pos : Nat) (b : IBatch) :
+    (serve c p pos b).1 = Http.turn c.brk pos (p.steps.drop pos) := by
+  simp [serve, hp]
+
+theorem pull_fin (f : Nat) (s : St) (items : List Item) : (pull c p f s items).1.finished = s.finished :=
+  (pull_client c p f s items).1
+
+/-- reading a producer turn (after any unread logs) and carrying on with `next` delivers the rest of the script -/
+theorem pullThen_turn (hp : p.isProducer = true) : ∀ (rest : List Step) (pos : Nat) (cl : List Log) (f n : Nat) (s : St),
+    p.steps.drop pos = rest → rest.length ≤ n → s.finished = false →
+    pullThen c p f n s (logItems cl ++ Http.turn c.brk pos rest) = Sem.lg cl ++ Sem.producer false rest := by
+  intro rest
+  induction rest with
+  | nil =>
+    intro pos cl f n s _ _ _
+    rw [pullThen_logs]
+    simp [pullThen, Http.turn, pull, Sem.producer]
+  | cons st r ih =>
+    intro pos cl f n s hdrop hn hf
+    have hr : p.steps.drop (pos + 1) = r := drop_succ_of_drop _ _ _ _ hdrop
+    simp only [List.length_cons] at hn
+    obtain ⟨n', rfl⟩ : ∃ n', n = n' + 1 := ⟨n - 1, by omega⟩
+    rw [pullThen_logs]
+    congr 1
+    cases hact : st.act with
+    | emit b =>
+      simp only [Http.turn, processStep, hact, Sem.producer]
+      rw [List.append_assoc, List.append_assoc, pullThen_logs, List.singleton_append]
+      simp only [pullThen, pull]
+      rw [nextN_reader c p n' _ _ rfl]
+      cases hb : c.brk pos with
+      | true =>
+        simp only [if_true]
+        -- the response ends with the token: the next `next` follows it
+        rw [pullThen_logs]
+        have hfuel : fuel p = (fuel p - 1) + 1 := by simp [fuel]
+        have : pullThen c p (fuel p) n' { s with gen := .reader (logItems st.post ++ [Item.token (pos + 1)]) }
+            [Item.token (pos + 1)] = Sem.producer false r := by
+          rw [hfuel]
+          unfold pullThen
+          rw [pull.eq_6, if_neg (by simp [hf])]
+          have := ih (pos + 1) [] (fuel p - 1) n'
+            { s with gen := .reader (logItems st.post ++ [Item.token (pos + 1)]),
+                     slog := s.slog ++ (serve c p (pos + 1) tickBatch).2, reqs := s.reqs + 1 } hr (by omega) hf
+          simp only [logItems, List.map_nil, List.nil_append, Sem.lg, pullThen] at this
+          rw [serve_producer c p hp, hr]
+          exact this
+        rw [this]
+        simp [List.append_assoc]
+      | false =>
+        simp only [Bool.false_eq_true, if_false]
+        rw [ih (pos + 1) st.post (fuel p) n'
+          { s with gen := .reader (logItems st.post ++ Http.turn c.brk (pos + 1) r) } hr (by omega) hf]
+        simp [List.append_assoc]
+    | finish =>
+      simp only [Http.turn, processStep, hact, Sem.producer]
+      rw [pullThen_logs, ← List.append_nil (logItems st.post), pullThen_logs]
+      simp [pullThen, pull, List.append_assoc]
+    | emitFinish b =>
+      simp only [Http.turn, processStep, hact, Sem.producer]
+      rw [List.append_assoc, pullThen_logs, List.singleton_append]
+      simp only [pullThen, pull]
+      rw [nextN_reader c p n' _ _ rfl, ← List.append_nil (logItems st.post), pullThen_logs]
+      simp [pullThen, pull, List.append_assoc]
+    | raise e =>
+      simp [Http.turn, processStep, hact, Sem.producer, pullThen, pull, Sem.failLogs]
+    | nothing =>
+      simp [Http.turn, processStep, hact, Sem.producer, pullThen, pull, Sem.failLogs]
+
+
+/-- what the iterator still delivers once the pending batches are handed out -/
+def endEvs (s : St) : List Ev :=
+  match s.perr with
+  | some e => [e]
+  | none =>
+    if s.finished then [.fin]
+    else match s.tok with
+      | none => [.fin]
+      | some pos => Sem.producer false (p.steps.drop pos)
+
+theorem afterPendingEnd_then (hp : p.isProducer = true) (n : Nat) (s : St) (hn : p.steps.length ≤ n) :
+    (match afterPendingEnd c p s with
+     | (s', evs, true) => evs ++ (nextN c p n s').2
+     | (_, evs, false) => evs) = endEvs p s := by
+  unfold afterPendingEnd endEvs
+  cases hperr : s.perr with
+  | some e => simp
+  | none =>
+    cases hf : s.finished with
+    | true => simp
+    | false =>
+      cases ht : s.tok with
+      | none => simp
+      | some pos =>
+        simp only [Bool.false_eq_true, if_false]
+        have := pullThen_turn c p hp (p.steps.drop pos) pos [] (fuel p) n
+          { s with pend := [], slog := s.slog ++ (serve c p pos tickBatch).2, reqs := s.reqs + 1 } rfl
+          (by simp; omega) hf
+        simp only [logItems, List.map_nil, List.nil_append, Sem.lg, pullThen, hperr, hf, ht] at this
+        rw [serve_producer c p hp]
+        exact this
+
+theorem endEvs_gen (s : St) (g : Gen) : endEvs p { s with gen := g } = endEvs p s := rfl
+
+theorem nextN_pending (hp : p.isProducer = true) : ∀ (d j n : Nat) (s : St), s.pend.length = j + d →
+    (s.gen = .pending j ∨ (j = 0 ∧ s.gen = .fresh)) → d + p.steps.length + 1 ≤ n →
+    (nextN c p n s).2 = (s.pend.drop j).map Ev.data ++ endEvs p s := by
+  intro d
+  induction d with
+  | zero =>
+    intro j n s hlen hg hn
+    obtain ⟨n', rfl⟩ : ∃ n', n = n' + 1 := ⟨n - 1, by omega⟩
+    have hnone : s.pend[j]? = none := by rw [List.getElem?_eq_none_iff]; omega
+    have hnext : next c p s = afterPendingEnd c p s := by
+      rcases hg with hg | ⟨hj, hg⟩
+      · simp [next, hg, afterPending, hnone]
+      · subst hj; simp [next, hg, afterPending, hnone]
+    have hdrop : s.pend.drop j = [] := by rw [List.drop_eq_nil_iff]; omega
+    have := afterPendingEnd_then c p hp n' s (by omega)
+    simp only [nextN, hnext, hdrop, List.map_nil, List.nil_append]
+    rw [← this]
+    split <;> simp_all
+  | succ d ih =>
+    intro j n s hlen hg hn
+    obtain ⟨n', rfl⟩ : ∃ n', n = n' + 1 := ⟨n - 1, by omega⟩
+    have hj : j < s.pend.length := by omega
+    have hsome : s.pend[j]? = some s.pend[j] := List.getElem?_eq_getElem hj
+    have hnext : next c p s = ({ s with gen := .pending (j + 1) }, [.data s.pend[j]], true) := by
+      rcases hg with hg | ⟨hj0, hg⟩
+      · simp [next, hg, afterPending, hsome]
+      · subst hj0; simp [next, hg, afterPending, hsome]
+    have hdrop : s.pend.drop j = s.pend[j] :: s.pend.drop (j + 1) := List.drop_eq_getElem_cons hj
+    simp only [nextN, hnext]
+    rw [ih (j + 1) n' { s with gen := .pending (j + 1) } (by simp; omega) (Or.inl rfl) (by omega)]
+    show [Ev.data s.pend[j]] ++ ((s.pend.drop (j + 1)).map Ev.data ++ endEvs p s) = (s.pend.drop j).map Ev.data ++ endEvs p s
+    rw [hdrop]; rfl
+
+
+/-- the tail of `Http.assemble` once continuations are known to deliver the rest of the script -/
+def tailEvs (pr : Http.InitParse) : List Ev :=
+  match pr.err with
+  | some e => [e]
+  | none => match pr.cursor with
+    | none => [.fin]
+    | some pos => Sem.producer false (p.steps.drop pos)
+
+theorem assemble_tail (pr : Http.InitParse) :
+    Http.assemble pr (fun pos => Sem.producer false (p.steps.drop pos)) =
+      pr.evs ++ pr.pending.map Ev.data ++ tailEvs p pr := by
+  unfold Http.assemble tailEvs
+  rfl
+
+theorem iterate_assemble (brk : Nat → Bool) (il : List Log) (steps : List Step) :
+    Http.iterate brk il steps =
+      Http.assemble (Http.parseInit (logItems il ++ Http.turn brk 0 steps))
+        (fun pos => Sem.producer false (steps.drop pos)) := by
+  unfold Http.iterate Http.initBody
+  congr 1
+  funext pos
+  exact http_resume brk steps pos
+
+theorem tail_aux (perr : Option Ev) (cur : Option Nat) :
+    (match perr with
+     | some e => [e]
+     | none => if cur.isNone = true then [Ev.fin]
+        else match cur with
+          | none => [Ev.fin]
+          | some pos => Sem.producer false (p.steps.drop pos)) =
+    (match perr with
+     | some e => [e]
+     | none => match cur with
+        | none => [Ev.fin]
+        | some pos => Sem.producer false (p.steps.drop pos)) := by
+  cases perr <;> cases cur <;> rfl
+
+theorem openS_cases (m : Method) (hi : m.init = none) :
+    (∃ e, (Http.parseInit (initBody c m).1).err = some e ∧ (Http.parseInit (initBody c m).1).pending = [] ∧
+        m.header = none ∧ openS c m = ((Http.parseInit (initBody c m).1).evs ++ [e], none)) ∨
+    openS c m = (openEvs m (Http.parseInit (initBody c m).1), some (session c m (Http.parseInit (initBody c m).1))) := by
+  unfold openS
+  rw [hi]
+  simp only
+  split
+  · rename_i e he hpend hh
+    exact Or.inl ⟨e, he, hpend, hh, rfl⟩
+  · exact Or.inr rfl
+
+theorem openIterate_eq (m : Method) (hp : m.prog.isProducer = true) (hi : m.init = none) :
+    openIterate c m =
+      openEvs m (Http.parseInit (initBody c m).1) ++ (Http.parseInit (initBody c m).1).pending.map Ev.data ++
+        tailEvs m.prog (Http.parseInit (initBody c m).1) := by
+  rcases openS_cases c m hi with ⟨e, he, hpend, hh, hopen⟩ | hopen
+  · unfold openIterate
+    rw [hopen]
+    simp [openEvs, hh, tailEvs, he, hpend]
+  · unfold openIterate
+    rw [hopen]
+    simp only
+    rw [nextN_pending c m.prog hp (session c m (Http.parseInit (initBody c m).1)).pend.length 0 _ _ (by simp)
+      (Or.inr ⟨rfl, rfl⟩) (by omega)]
+    simp only [List.drop_zero, List.append_assoc]
+    congr 2
+    simp only [endEvs, session, tailEvs]
+    exact tail_aux m.prog _ _
+
+end HttpSession
+
 end Aux
 
 open Aux
@@ -1267,6 +1509,72 @@ theorem C10_producer_pipe_session (env : Env) (m : Method) (hd : m.prog.decl = [
         rw [this]; rfl
       rw [Engine.Aux.datasOf_append, hl]; exact c10.1
     · rw [key]; exact c10.2.1
+
+/-- HTTP, the op machine, every break-decision function (hence every cap / codec / number of turns) and either value of
+the `_finished` check: opening a producer and iterating it to the end.  Without a header the event sequence IS
+`Engine.Http.iterate`; with a header it is the same sequence with the header-stream logs in front and the header event
+after the logs delivered at the open.  Either way the data delivered = the emitted batches up to the finish, and the
+stream ends exactly there. -/
+theorem C10_producer_http_session (c : HttpM.Cfg) (m : Method) (hd : m.prog.decl = []) (hi : m.init = none) :
+    (m.header = none → HttpM.openIterate c m = Http.iterate c.brk m.initLogs m.prog.steps) ∧
+    (∀ h, m.header = some h → ∃ evs tail, Http.iterate c.brk [] m.prog.steps = evs ++ tail ∧
+        (∀ e ∈ evs, ∃ l, e = Ev.log l) ∧
+        HttpM.openIterate c m = lgEv m.initLogs ++ evs ++ [Ev.header h] ++ tail) ∧
+    datasOf (HttpM.openIterate c m) = emitted m.prog.steps ∧
+    restOf (HttpM.openIterate c m) =
+      (match m.header with | some h => [Ev.header h] | none => []) ++ terminal m.prog.steps := by
+  have hp : m.prog.isProducer = true := by simp [Prog.isProducer, hd]
+  have key := openIterate_eq c m hp hi
+  have hnone : m.header = none → HttpM.openIterate c m = Http.iterate c.brk m.initLogs m.prog.steps := by
+    intro hh
+    rw [key, iterate_assemble, assemble_tail]
+    simp [HttpM.openEvs, hh, HttpM.initBody, hp, HttpM.sinkLogs]
+  have hsome : ∀ h, m.header = some h → ∃ evs tail, Http.iterate c.brk [] m.prog.steps = evs ++ tail ∧
+      (∀ e ∈ evs, ∃ l, e = Ev.log l) ∧
+      HttpM.openIterate c m = lgEv m.initLogs ++ evs ++ [Ev.header h] ++ tail := by
+    intro h hh
+    have hb : (HttpM.initBody c m).1 = logItems [] ++ Http.turn c.brk 0 m.prog.steps := by
+      simp [HttpM.initBody, hp, HttpM.sinkLogs, hh]
+    refine ⟨(Http.parseInit (HttpM.initBody c m).1).evs,
+      (Http.parseInit (HttpM.initBody c m).1).pending.map Ev.data ++ tailEvs m.prog (Http.parseInit (HttpM.initBody c m).1),
+      ?_, parseInit_evs_logs _, ?_⟩
+    · rw [iterate_assemble, assemble_tail, ← hb, List.append_assoc]
+    · rw [key]; simp [HttpM.openEvs, hh, List.append_assoc]
+  have c10 := C10_producer c.brk
+  refine ⟨hnone, hsome, ?_, ?_⟩
+  · cases hh : m.header with
+    | none => rw [hnone hh]; exact (c10 m.initLogs m.prog.steps).2.2.1
+    | some h =>
+      obtain ⟨evs, tail, e1, hl, e2⟩ := hsome h hh
+      have := (c10 [] m.prog.steps).2.2.1
+      rw [e1, Engine.Aux.datasOf_append] at this
+      rw [e2]
+      simp only [Engine.Aux.datasOf_append]
+      have h1 : datasOf (lgEv m.initLogs) = [] := datasOf_lg m.initLogs
+      have h2 : datasOf [Ev.header h] = [] := rfl
+      rw [h1, h2]
+      simpa using this
+  · cases hh : m.header with
+    | none => rw [hnone hh]; simpa using (c10 m.initLogs m.prog.steps).2.2.2
+    | some h =>
+      obtain ⟨evs, tail, e1, hl, e2⟩ := hsome h hh
+      have := (c10 [] m.prog.steps).2.2.2
+      rw [e1, Engine.Aux.restOf_append] at this
+      have hev : restOf evs = [] := by
+        clear this e1 e2
+        induction evs with
+        | nil => rfl
+        | cons x r ih =>
+          obtain ⟨l, hx⟩ := hl x (by simp)
+          rw [hx]
+          exact ih (fun e he => hl e (by simp [he]))
+      rw [hev, List.nil_append] at this
+      rw [e2]
+      simp only [Engine.Aux.restOf_append]
+      have h1 : restOf (lgEv m.initLogs) = [] := restOf_lg m.initLogs
+      have h2 : restOf [Ev.header h] = [Ev.header h] := rfl
+      rw [h1, h2, hev, this]
+      rfl
 
 /-! ## Header -/
 
